@@ -312,7 +312,7 @@ class Check:
             first_known.update(basekw)
             first_known['extra_known'] = sorted(set(known_sigs))
             return first_known
-        return R.ok(summary={'files_compared': sorted(base)[:12], 'variants': sc['variants'][:3]}, trace_digest=prng.digest(sorted(hashlib.sha256(b).hexdigest() for b in base.values())), **basekw)
+        return R.ok(summary={'files_compared': sorted(base)[:12], 'variants': sc['variants'][:3]}, trace_digest=prng.digest(sorted(hashlib.sha256(b.replace(root.encode(), b'<ROOT>')).hexdigest() for b in base.values())), **basekw)
 
     @staticmethod
     def classify(rel: str) -> str:
